@@ -137,3 +137,37 @@ Theorem C12_overlapping_publishers_refuted :
   map e_val (log s3) = [1; 2; 3; 4] /\ for_id 0 (dels s3) = [4; 2; 1] /\ get_saved s3 0 = 4.
 Proof. exact overlapping_publishers_lose_an_event. Qed.
 Print Assumptions C12_overlapping_publishers_refuted.
+
+(* ---- the third store: durable-streams (model Store/ResubDs.v: paged replay, synthetic per-event offsets that resume
+   from the end of the page; tied to the real store and bus by the suites resubds, resubdsinner) ---- *)
+From Ebu Require Store.ResubDs Store.ResubDsProofs.
+
+(* what survives there, over every history with crash points, failing store operations and publishes during replay:
+   the saved offset never moves backwards and never points beyond the log *)
+Theorem C12_ds_saved_offset_monotone : forall fuel tys h1 h2 id,
+  get_saved (ResubDs.run_ds fuel tys h1 init) id <= get_saved (ResubDs.run_ds fuel tys (h1 ++ h2) init) id.
+Proof. exact ResubDsProofs.saved_monotone_ds. Qed.
+Print Assumptions C12_ds_saved_offset_monotone.
+
+Theorem C12_ds_saved_offset_within_log : forall fuel tys h id,
+  get_saved (ResubDs.run_ds fuel tys h init) id <= length (log (ResubDs.run_ds fuel tys h init)).
+Proof. exact ResubDsProofs.saved_within_log_ds. Qed.
+Print Assumptions C12_ds_saved_offset_within_log.
+
+(* REFUTED there (known finding F8d, reproduced on the real store by suite resubds): "if the process dies at any point
+   no event is lost".  Three events; the process dies in SubscribeWithReplay right after the first one has been handled
+   and its synthetic offset - which resumes from the end of the page - saved; after the restart a clean
+   SubscribeWithReplay delivers nothing, events 2 and 3 never reach the subscription. *)
+Theorem C12_ds_interrupted_replay_refuted :
+  let s := ResubDs.run_ds 80 [0; 1; 0] ResubDsProofs.h_ds_crash init in
+  map e_val (log s) = [1; 2; 3] /\ for_id 0 (dels s) = [1] /\ get_saved s 0 = 3 /\ is_live s 0 = true.
+Proof. exact ResubDsProofs.ds_interrupted_replay_loses. Qed.
+Print Assumptions C12_ds_interrupted_replay_refuted.
+
+(* non-vacuity: without the crash everything arrives once, in order - also an event the handler publishes during the
+   replay, which the next page picks up *)
+Example C12_ds_clean_example :
+  let s := ResubDs.run_ds 80 [0; 1; 0] [(OPub 0 1, clean); (OPub 1 2, clean); (OPub 0 3, clean); (OSub 0 [(0, 0, 4)], clean);
+                                        (OPub 0 5, clean); (ORestart, clean); (OSub 0 [], clean)] init in
+  map e_val (log s) = [1; 2; 3; 4; 5] /\ rev (for_id 0 (dels s)) = [1; 3; 4; 5] /\ get_saved s 0 = 5.
+Proof. exact ResubDsProofs.ds_clean_example. Qed.
